@@ -148,7 +148,7 @@ func init() {
 	gen.RegisterPool(ReListType, []string{"circle", "disc", "a", "I", "1"}, []string{"2", "roman", ""})
 	gen.RegisterPool(ReNumber, []string{"0", "1.5", "-1", "+2e10", ".5"}, []string{"1,5", "", "e", "1px"})
 	gen.RegisterPool(ReNumberOrPercent, []string{"100", "100%", "0"}, []string{"-1", "1.5%", "%", "10px"})
-	gen.RegisterPool(ReParagraph, []string{"Hello, world!", "it's [ok] (really)", "", "a/b\\c_d-e."}, []string{"a<b", `say "x"`, "a=b", "a&b", "a;b"})
+	gen.RegisterPool(ReParagraph, []string{" lead", "trail ", " a b ", "Hello, world!", "it's [ok] (really)", "", "a/b\\c_d-e."}, []string{"a<b", `say "x"`, "a=b", "a&b", "a;b"})
 	gen.RegisterPool(ReLang, []string{"en", "de-DE", "zh-Hant"}, []string{"e", "1", ""})
 	gen.RegisterPool(ReID, []string{"a1", "x:y", "sec-2.1_b"}, []string{"", "é", " "})
 	gen.RegisterPool(ReOpen, []string{"", "open", "OPEN"}, []string{"yes", "opened"})
